@@ -24,6 +24,10 @@ is the cookie, the rest are attributes) and a reference model written from the s
 * streaming responses (``write; flush; write; finish``, ``flush`` alone, two flushes): every cookie set
   before the first ``flush()`` is emitted exactly as set; a cookie call made after the headers have left
   cannot be emitted any more (EITHER raises or is ignored) and must not disturb the earlier ones;
+* response endings: the cookies belong to whatever response is sent — after the cookie calls the handler may
+  finish normally, ``raise HTTPError(401/403/409)``, call ``send_error(409/500)``, die with an uncaught
+  exception, ``redirect()``, or produce an error page whose ``write_error`` override sets a cookie itself; the
+  Set-Cookie lines of every successful call must be on that response (status as implied by the ending);
 * a call that raised has no effect at all: the cookies set by earlier successful calls (same name
   included) are still emitted exactly as set, and nothing of the rejected call is.
 * a plain HTTP date given through the deprecated ``Expires=`` spelling (documented as accepted) is not
@@ -52,6 +56,12 @@ Sensitivity (scratch copies, quick tier, seed 1):
     http.cookies.Morsel._reserved of the running Python in display / upper / capitalised / lower spelling
     (Expires, Max-Age, Secure, HttpOnly, Version, Comment ..., 24 spellings + 2 unknown ones) x 23 payloads, and the
     enumerated "legacy" part runs each alone and on top of explicit parameters via set / signed / clear (1372 cases).
+  * web.py the _new_cookie jar created in clear() (hasattr guards dropped): send_error() calls clear(), so every
+    error response loses the cookies set before it -> caught at seeds 1,2,3 (cookie_missing_in_error_response;
+    "shapes" part + the exploration's ending arm).  Missed before: every handler program finished normally.  A program
+    may now end with ("end", "", kind, {}), kind in http401/http403/http409 (raise HTTPError), send_error409/500,
+    uncaught (RuntimeError), redirect, write_error_cookie (HTTPError(418) with a write_error override that sets a
+    cookie itself); the status implied by the ending and all Set-Cookie clauses are checked on that response.
   * web.py the block that turns _new_cookie into Set-Cookie headers moved from flush() into finish()'s
     "if not self._headers_written" section: with an explicit flush() before finish() the headers leave without the
     cookies -> caught at seeds 1,2,3 (cookie_missing_after_flush; deterministic "shapes" part + the exploration's
@@ -88,7 +98,8 @@ RULE = (
     "a read-back request; non-trivial = a value or attribute contains a separator, quote or non-ASCII "
     "character, or one name is set twice; one case in four is an accepted call followed by a rejected call "
     "for the same name, one in four a streaming response (cookie calls, flush(), optionally more calls / a second "
-    "flush); plus enumerated parts 'shapes' (streaming shapes per api) and 'legacy'; distinct = SHA-1 of the op list"
+    "flush), one in five ends in an error response / redirect instead of a plain finish(); plus enumerated parts "
+    "'shapes' (streaming shapes and response endings per api) and 'legacy'; distinct = SHA-1 of the op list"
 )
 ASSUMPTIONS = [
     "reference attribute model written from the set_cookie / clear_cookie / set_signed_cookie docstrings",
@@ -183,6 +194,26 @@ class CookieHandler(tornado.web.RequestHandler):
         if c["phase"] == "set":
             for op in c["ops"]:
                 t0 = time.time()
+                if op[0] == "end":
+                    # how the response ends: ("end", "", kind, {}) is the last op of a program
+                    c["raised"].append(None)
+                    c["times"].append((t0, time.time()))
+                    c["done"] = True
+                    kind = op[2]
+                    if kind.startswith("http"):
+                        raise tornado.web.HTTPError(int(kind[4:]))
+                    if kind.startswith("send_error"):
+                        self.send_error(int(kind[10:]))
+                        return
+                    if kind == "uncaught":
+                        raise RuntimeError("c25: uncaught exception in the handler")
+                    if kind == "redirect":
+                        self.redirect("/next")
+                        return
+                    if kind == "write_error_cookie":
+                        c["werr"] = True
+                        raise tornado.web.HTTPError(418)
+                    raise AssertionError(kind)
                 if op[0] == "flush":
                     # streaming response: ("flush", "", "w"|"", {}) = [write a part,] flush() before finish()
                     if op[2]:
@@ -204,6 +235,15 @@ class CookieHandler(tornado.web.RequestHandler):
         c["done"] = True
         self.write(b"ok")
 
+    def write_error(self, status_code, **kwargs):
+        if CUR.get("werr"):
+            # an error page that itself sets a cookie
+            self.set_cookie("werr", "1")
+        super().write_error(status_code, **kwargs)
+
+
+END_CODES = {"http403": 403, "http401": 401, "http409": 409, "send_error500": 500, "send_error409": 409,
+             "uncaught": 500, "redirect": 302, "write_error_cookie": 418}
 
 APP = tornado.web.Application([(r"/.*", CookieHandler)], cookie_secret=SECRET)
 
@@ -319,7 +359,7 @@ def evaluate(ops):
         return problem("C25.handler_did_not_run_all_calls")
     for op, r in zip(ops, raised):
         labels.add("api:" + op[0])
-        if op[0] == "flush":
+        if op[0] in ("flush", "end"):
             continue
         labels.add("raised" if r is not None else "accepted")
         if r is not None:
@@ -359,8 +399,17 @@ def evaluate(ops):
     want_body = b"part" * sum(1 for op in ops if op[0] == "flush" and op[2]) + b"ok"
     if any(op[0] == "flush" for op in ops):
         labels.add("flushed_before_finish")
-    if r.code != 200 or r.body != want_body:
-        return problem("C25.handler_response_changed", {"code": r.code, "body": r.body[:100]})
+    ending = next((op[2] for op in ops if op[0] == "end"), None)
+    if ending is not None:
+        labels.add("ending:" + ending)
+    if ending is None:
+        if r.code != 200 or r.body != want_body:
+            return problem("C25.handler_response_changed", {"code": r.code, "body": r.body[:100]})
+    elif "flushed_before_finish" in labels:
+        # the headers (200) left before the error: EITHER for status/body; the cookie clauses still apply
+        labels.add("error_after_flush")
+    elif r.code != END_CODES[ending]:
+        return problem("C25.ending_status", {"code": r.code, "want": END_CODES[ending]})
 
     # ---- model: last successful call per name
     model = {}
@@ -371,6 +420,8 @@ def evaluate(ops):
     flushed = False
     for op, rz, tm in zip(ops, raised, times):
         name = op[1]
+        if op[0] == "end":
+            continue
         if op[0] == "flush":
             flushed = True
             continue
@@ -386,6 +437,10 @@ def evaluate(ops):
         accepted_before.add(name)
         count[name] = count.get(name, 0) + 1
         model[name] = (op, tm)
+    if ending == "write_error_cookie" and not flushed:
+        model["werr"] = (("set", "werr", "1", {}), (0.0, 0.0))   # set by the write_error override
+    if ending is not None and model:
+        labels.add("cookie_then_" + ("redirect" if ending == "redirect" else "error_response"))
     if any(n >= 2 for n in count.values()):
         labels.add("same_name_twice")
     if len(model) >= 2:
@@ -408,11 +463,15 @@ def evaluate(ops):
     read = []
     for name, (op, tm) in model.items():
         if name not in lines:
-            if "raise_after_accept_same_name" in labels and any(
+            if ending is None and "raise_after_accept_same_name" in labels and any(
                     rz is not None and op2[1] == name for op2, rz in zip(ops, raised)):
                 return problem("C25.rejected_call_removed_earlier_cookie", {"name": name})
-            return problem("C25.cookie_missing_after_flush" if "flushed_before_finish" in labels else "C25.cookie_missing",
-                           {"name": name})
+            clause = "C25.cookie_missing"
+            if "flushed_before_finish" in labels:
+                clause = "C25.cookie_missing_after_flush"
+            elif ending is not None:
+                clause = "C25.cookie_missing_in_" + ("redirect" if ending == "redirect" else "error_response")
+            return problem(clause, {"name": name})
         raw, attrs, line = lines[name]
         want = model_attrs(op, tm)
         got = {}
@@ -650,8 +709,17 @@ def _streaming():
                      st.lists(_op(), max_size=1), st.sampled_from([None, None, FLUSH_W]))
 
 
+ENDINGS = sorted(END_CODES)
+
+
+def _with_ending():
+    """Cookie calls, then the response ends in something other than a plain finish()."""
+    return st.builds(lambda ops, kind: list(ops) + [("end", "", kind, {})],
+                     st.lists(_op(), min_size=1, max_size=2), st.sampled_from(ENDINGS))
+
+
 case_s = st.one_of(st.lists(_op(), min_size=1, max_size=3), st.lists(_op(), min_size=1, max_size=3),
-                   _streaming(), _accept_then_reject())
+                   _streaming(), _accept_then_reject(), _with_ending())
 
 
 def shape_cases():
@@ -669,6 +737,12 @@ def shape_cases():
             yield [f, fl, (f[0], f[1], "" if f[0] == "clear" else "late", {})]   # same name again after the flush
             yield [f, ("set", f[1], "\u20ac", {}), fl]        # rejected second call, then flush
             yield [fl, f]                                      # cookie only after the flush
+        # response endings: the cookies belong to whatever response is sent
+        for kind in ENDINGS:
+            yield [f, ("end", "", kind, {})]
+            yield [f, ("set", "b", "2", {"httponly": True}), ("end", "", kind, {})]
+            yield [f, ("set", f[1], "\u20ac", {}), ("end", "", kind, {})]      # rejected second call, then the ending
+        yield [f, FLUSH_W, ("end", "", "http403", {})]                        # error after the headers have left
 
 def legacy_sweep():
     """Every legacy spelling of every cookie attribute x every payload, alone and on top of explicit
